@@ -29,7 +29,10 @@ def build(F):
     book_msg = dict(name='Book', fields=book_fields)
     if 'f_nested' in F:
         book_msg['messages'] = [dict(name='Chapter', fields=[dict(name='title'), dict(name='kind', type='enum:Book.Chapter.Kind'),
-                                                             dict(name='notes', type='Book.Chapter.Note', repeated=True)],
+                                                             dict(name='notes', type='Book.Chapter.Note', repeated=True),
+                                                             # a NESTED message with a field named like the proto-plus module the
+                                                             # class body itself uses (no top-level message has such a field)
+                                                             dict(name='proto'), dict(name='after_proto', type='int32')],
                                      messages=[dict(name='Note', fields=[dict(name='text'), dict(name='deep', type='Book.Chapter.Note.Deep')],
                                                     messages=[dict(name='Deep', fields=[dict(name='x', type='int32')])])],
                                      enums=[dict(name='Kind', values=['KIND_UNSPECIFIED', 'INTRO', 'BODY'])])]
